@@ -56,6 +56,19 @@ def ListenOK {S} (M : Machine S) : S → List Input → Prop
   | _, [] => True
   | s, i :: rest => (M.started s = true ∨ i = Input.start) ∧ ListenOK M (M.step s i).1 rest
 
+def Entry.isTimeout : Entry → Bool
+  | .timeout .. => true
+  | _ => false
+
+/-- Discipline of a replay: a timeout entry that is processed (not skipped) meets a machine whose
+height has been started. (`ProcessTimeout` does not check `isHeightStarted`; `listen` only delivers
+timeouts of timers armed after `ProcessStart`, and the log keeps that order — see `LiveInv.rok`.) -/
+def ReplayOK {S} (M : Machine S) : S → List Entry → Prop
+  | _, [] => True
+  | s, e :: rest =>
+    (e.isTimeout = true → skipOnReplay (M.height s) e = false → M.started s = true) ∧
+      ReplayOK M (replayStep M s e).1 rest
+
 /-! ## Hypotheses on the state machine -/
 
 /-- What the driver's recovery needs from the state machine. Every field is a statement about
@@ -72,6 +85,9 @@ structure ReplaySafe {S} (M : Machine S) : Prop where
     ((M.step s i).1 = s ∧ (M.step s i).2 = []) ∨
     (∃ e rest, (M.step s i).2 = Action.writeWAL e :: rest ∧ e.toInput = i ∧
       M.height s ≤ e.height ∧ (i = Input.start → e.height = M.height s) ∧ walOf rest = [])
+  /-- A timeout is only logged when it is for the current height. -/
+  timeout_entry_current : ∀ s i e rest, (M.step s i).2 = Action.writeWAL e :: rest →
+    e.isTimeout = true → e.height = M.height s
   height_mono : ∀ s i, M.height s ≤ M.height (M.step s i).1
   /-- A commit is the last action of its list, is for the current height, and moves the machine
   to the next height, not started. Without a commit the height stays. -/
@@ -88,7 +104,7 @@ structure ReplaySafe {S} (M : Machine S) : Prop where
     M.height (M.step s i).1 = M.height s
   /-- A message or timeout of a future height is only stored: nothing visible happens. -/
   future_silent : ∀ s (a : Entry), M.height s < a.height → a.toInput ≠ Input.start →
-    visA (M.step s a.toInput).2 = []
+    visA (M.step s a.toInput).2 = [] ∧ M.started (M.step s a.toInput).1 = M.started s
   /-- A future-height entry `a` can be processed before or after an entry `b` of a lower height
   without changing the resulting state or what `b` makes visible; `a` is silent either way. -/
   commute : ∀ s (a b : Entry), M.height s ≤ b.height → b.height < a.height → a.toInput ≠ Input.start →
@@ -102,10 +118,12 @@ structure ReplaySafe {S} (M : Machine S) : Prop where
     (replayStep M (replayRun M (M.init h) A).1 e).1 = M.init (h + 1)
 
 /-- A single uncrashed execution never equivocates: a fresh machine fed ANY sequence of entries
-broadcasts at most one prevote id and one precommit id per height and round. (This is C12's
-`no_double_vote`; here it is a hypothesis on the abstract machine.) -/
+(timeouts only after `start`, `ReplayOK`) broadcasts at most one prevote id and one precommit id
+per height and round. This is C12's `no_double_vote`; `Tendermint.lean` derives it for the
+transcription of juno's state machine. -/
 def NoEquivocation {S} (M : Machine S) : Prop :=
-  ∀ h (L : List Entry) v w, v ∈ votesOf (replayRun M (M.init h) L).2 →
+  ∀ h (L : List Entry), ReplayOK M (M.init h) L →
+    ∀ v w, v ∈ votesOf (replayRun M (M.init h) L).2 →
     w ∈ votesOf (replayRun M (M.init h) L).2 → ¬ v.conflicts w
 
 /-! ## The crash / recovery scenario -/
